@@ -172,7 +172,7 @@ func (h *harness) buildAndVerify(c *Case, ops []wop, freshSW bool) (n int, statu
 	defer os.Remove(path)
 	b, err := table.NewStoreBuilder(1, path)
 	if err != nil {
-		vevid.Fatal("NewStoreBuilder: %v", err)
+		vevid.OpFailed("NewStoreBuilder: %v", err)
 	}
 	model, ok := h.execOps(c, b, ops, freshSW)
 	if !ok {
